@@ -3,15 +3,15 @@
 import json, os
 HERE = os.path.dirname(os.path.dirname(os.path.abspath(__file__)))
 
-E1_TECH = "deterministic simulation with fault injection: the real node (all goroutines) in a synctest bubble under a seeded baton scheduler (pre-emption at every lock / channel / I/O point, injected thread stalls), simulated transport/disk/clock, scripted peers; oracle over the recorded history; seeded search with replay + tape minimisation"
+E1_TECH = "deterministic simulation with fault injection: the real node (all goroutines) in a synctest bubble under a seeded baton scheduler (pre-emption at every lock / channel / I/O point, behind completed channel sends and in front of sync/atomic operations; injected thread stalls), simulated transport/disk/clock, scripted peers; oracle over the recorded history; seeded search with replay + tape minimisation"
 E1_NOTE = "Sampling, not proof. Trusted base: go1.26.8 synctest, the source-to-source instrumentation pass, the peer/world models. OutputFetcher/TxFetcher, transport, disk, clock and scheduling are simulated; everything else is the repository's code."
 
-E2_TECH = "deterministic simulation with fault injection: the real RemoteClient (all threads) in a synctest bubble under a seeded baton scheduler with injected thread stalls, against a scripted service over the simulated transport (latency, fragmentation, slow writes, drops); oracle over the recorded call/response/byte history; seeded search with replay + tape minimisation"
+E2_TECH = "deterministic simulation with fault injection: the real RemoteClient (all threads) in a synctest bubble under a seeded baton scheduler (pre-emption at every lock / channel / I/O point, behind completed channel sends and in front of sync/atomic operations; injected thread stalls), against a scripted service over the simulated transport (latency, fragmentation, slow writes, drops); oracle over the recorded call/response/byte history; seeded search with replay + tape minimisation"
 E2_NOTE = "Sampling, not proof. Trusted base: go1.26.8 synctest, the instrumentation pass (incl. every select statement of remote_client.go and the tokenized/threads copy), the service model. The session hash comes from a deterministic stream instead of crypto/rand."
 
 CLAIMED = {
  "C02": ("exploration", E1_TECH,
-         "With a trusted peer that answers header and block requests Byzantine-ly (shuffled / gapped / duplicated / unknown-parent / mixed-branch header lists, empty headers, blocks unrequested, twice, swapped, never) and sends such messages unsolicited, the block repository stays hash-linked with mutually inverse height/hash answers at every check (every 5-45 simulated ms, in every HandleHeaders callback, at the end), and announced heights are contiguous, restart at fork+1, link to what was announced before and equal what the node holds.",
+         "With a trusted peer that answers header and block requests Byzantine-ly (shuffled / gapped / duplicated / unknown-parent / mixed-branch header lists, a sibling of an entry right behind it, empty headers, blocks unrequested, twice, swapped, never) and sends such messages unsolicited, the block repository stays hash-linked with mutually inverse height/hash answers at every check (every 5-45 simulated ms, in every HandleHeaders callback, at the end), and announced heights are contiguous, restart at fork+1, link to what was announced before and equal what the node holds.",
          E1_NOTE, "6 C02, App. C"),
  "C10": ("fault_enumeration", "deterministic simulation with fault injection at the storage seam: the mutation log of a simulated sync/reorg/shutdown run is recorded and every prefix (quick: up to 60 per scenario, all around deletes and reorg records) is restarted; seeded single-operation error injection by index and by operation class; at component level every crash prefix and every single-failure position of block-store histories with reverts across one and two 1000-header files",
          "For each generated scenario every enumerated crash image (initial image + first i storage mutations) loads without error into a hash-linked chain that lies on one trusted-announced branch, and a new node started on it converges to the peer's best chain. With one storage operation failing the node converges anyway or after a clean restart, with linked chains in memory and on disk (also when it carried on without a restart: what a clean stop leaves must load and lead to the peer's chain). Component level: every crash prefix of generated add / AddNext / save / revert histories loads into a linked chain of added headers; with any single storage operation failing once and the caller saving and trying again, the running and the reloaded repository equal the model chain.",
@@ -23,7 +23,7 @@ CLAIMED = {
          "For 1-8 concurrent calls with distinct keys and any service behaviour per key (answer, reject, answer twice, silence; before or after the caller's time-out; unsolicited responses) each call returns exactly its own response or RejectError(code, text), or ErrTimeout no earlier than the request time-out and within request + message time-out + 5 s; GetOutputs returns each outpoint's own value and script in order or an error; the same request key issued again after a call ended (answered, rejected or timed out) gets its own answer.",
          E2_NOTE, "6 C16"),
  "C17": ("exploration", E2_TECH,
-         "For service streams with duplicated, future, old and repeated-after-reconnect ids, connection drops at any stream position, slow handlers and slow writes: ids reach each handler strictly consecutively from the declared id, never twice, both handlers in the same order, NextMessageID() = last + 1, content equals the service's message of that id, and with a service that resumes exactly from the declared id nothing is missed.",
+         "For service streams with duplicated, future, old and repeated-after-reconnect ids, connection drops at any stream position, slow handlers and slow writes: ids reach each handler strictly consecutively from the declared id (also when the application declares an id up to three behind its last one), never twice otherwise, both handlers in the same order; what each handler saw of all four notification kinds (tx, update, headers, in-sync) is, per connection, a prefix of the service's written messages filtered by a reference model of the id filter; NextMessageID() = last + 1 at quiescence and more than the id being delivered when read inside a callback; content equals the service's message of that id, and with a service that resumes exactly from the declared id nothing is missed.",
          E2_NOTE, "6 C17, App. C"),
  "C18": ("exploration", E2_TECH,
          "Over accept variants per connection (valid, long-term key, key for another hash, foreign signature, altered counts, replayed accept, none, reject; data sent after, ahead of or without the accept), both connection types, calls issued before/after accept, during disconnects and after reconnects, concurrent subscriptions, slow writes and drops: every Register verifies against the configured key; nothing but register/subscribe/ready is written before a connection's handshake completed; the client's bytes on every connection parse as whole messages; a call that returned nil was written after the handshake; after a forged accept no accept or data callback occurs and IsAccepted() is false (accept signatures are made with an independent implementation of the signature hash; connections are also lost right behind a valid accept).",
@@ -35,7 +35,7 @@ CLAIMED = {
          "For every explored block tree, best-chain change script (extend, reorg incl. below the start block and among undownloaded blocks, flip-flop), schedule and fault mix (duplicated / reordered / stalled peer messages, connection close / reset / bounded black-hole, dial failures, clean restarts) the node's tip and height-to-hash answers from the start block up equal the peer's best chain within 45 simulated minutes of the last change, and HandleInSync is only delivered while every block announced in fully read headers messages is held.",
          E1_NOTE, "6 C01, App. C"),
  "C03": ("exploration", E1_TECH,
-         "Over explored transaction sets and arrival histories (trusted/untrusted inv or body, local submission, first seen in a block, duplicates, silent peers, re-announcement after confirmation) every delivered transaction matches the independent reference filter, carries the spent outputs of the world model, is delivered as new at most once, reaches both handlers, and every relevant transaction that arrived while the node was stably in sync, was submitted locally or is in a processed block has been delivered.",
+         "Over explored transaction sets and arrival histories (trusted/untrusted inv or body, local submission, first seen in a block, duplicates, silent peers, re-announcement after confirmation, a first push by an untrusted peer while the output service cannot answer for its inputs) every delivered transaction matches the independent reference filter, carries the spent outputs of the world model, is delivered as new at most once, reaches both handlers, and every relevant transaction that arrived while the node was stably in sync, was submitted locally or is in a processed block has been delivered.",
          E1_NOTE, "6 C03"),
  "C04": ("exploration", E1_TECH,
          "Block transaction counts 1..17, 31, 32, 33 (enumerated by run index; random up to 70 in the thorough tier) with relevant transactions at first/last/odd-leaf/all/random positions, seen before or not: every confirmation notification carries a proof that an independent merkle verifier accepts against the block header, with the true index and depth zero, and the dependency's own verifier agrees on the proof and on tampered variants. Bodies corrupted under an unchanged header (transaction added, dropped, swapped, altered, last duplicated when that changes the root) never enter the chain, are never announced and none of their transactions is delivered. In transaction histories with double-spend attempts, chains and a lost trusted connection every notification that carries a proof verifies independently, names the true index and block, and has depth zero.",
